@@ -120,7 +120,7 @@ pub fn project_instruction<H: InstructionHandler>(
     )
 }
 
-fn numbering_of<H: InstructionHandler>(
+pub fn numbering_for<H: InstructionHandler>(
     program: &Program,
     handler: &H,
     externs: &ExternSignatureMap,
@@ -171,7 +171,7 @@ pub fn project_program<H: InstructionHandler>(program: &Program, handler: &H) ->
         Err(_) => (ExternSignatureMap::default(), true),
     };
     let blocks = ControlFlowGraph::from(program).into_blocks();
-    let numbering = numbering_of(program, handler, &externs, &blocks);
+    let numbering = numbering_for(program, handler, &externs, &blocks);
     let bs = blocks.iter().map(|b| project_block(program, handler, &externs, &numbering, b)).collect();
     tagged("prog", vec![nat(extern_err as u64), list(bs)])
 }
